@@ -49,6 +49,8 @@ def run_rule(rule, ctx, tier):
 # manager drops actions).  The dependent check runs the foundation's rules too and reports their findings as
 # "via <foundation>".
 DEPENDS = {
+    # a corrupted timer list (an event linked twice, a slot freed while still linked) is memory corruption
+    'C01': ['C08'],
     # the sequential timing behaviour rests on the consistency of the timer lists
     'C07': ['C08'],
     'C02': ['C04', 'C05', 'C06'],
